@@ -43,7 +43,7 @@ def facts(drv):
     fact('driver_alive', ['C14'], sqrt_exps)
     # ---- tower: the three extensions are fields (irreducibility by Euler-type criteria, A2 for the step to "field")
     u = mk('Fq2', [0, 1])
-    fact('minus_2_is_a_non_residue_mod_q', ['C12', 'C17'], lambda: pow(Q - 2, (Q - 1) // 2, Q) == Q - 1)
+    fact('minus_2_is_a_non_residue_mod_q', ['C12', 'C17', 'C14'], lambda: pow(Q - 2, (Q - 1) // 2, Q) == Q - 1)
     fact('u_is_a_non_square_in_Fq2', ['C17'], lambda: pow_num(S.NUM, 'Fq2', u, (Q * Q - 1) // 2) == mk('Fq2', [Q - 1, 0]))
     def v_noncube():
         v = mk('Fq4', [mk('Fq2', [0, 0]), mk('Fq2', [1, 0])])
